@@ -27,7 +27,7 @@ def main(tier, only):
     run = common.Run("C12", tier, "other", [common.src_range("src/isla/fuzzer.py", f) for f in
                      ["GrammarFuzzer.expand_tree", "GrammarFuzzer.expand_tree_once", "GrammarFuzzer.expand_node_randomly",
                       "GrammarFuzzer.expand_node_by_cost", "GrammarFuzzer.expansion_to_children", "GrammarCoverageFuzzer.choose_node_expansion"]] +
-                     [common.src_range("src/isla/mutator.py", f) for f in ["Mutator.replace_subtree_randomly", "Mutator.generalize_subtree"]])
+                     [common.src_range("src/isla/mutator.py", f) for f in ["Mutator.replace_subtree_randomly", "Mutator.generalize_subtree", "Mutator.swap_subtrees", "Mutator.mutate"]])
     L, D, to = (4, 2, 200) if tier == "quick" else (6, 3, 2400)
     cfgs = [dict(tag="g%d" % g, env={"VERIF_G": str(g), "VERIF_L": str(L), "VERIF_D": str(D)}, only=None, timeout=to) for g in range(4)]
     run.bounds = dict(trees="all trees decodable from <= %d pre-order choices (open trees for expansion, closed for mutation), 4 grammars "
@@ -36,13 +36,12 @@ def main(tier, only):
     run.engines = dict(crosshair="crosshair-tool 0.0.110 on z3 4.11.2")
     run.trusted = ["tree validator vlib.valid_tree", "random stub (Stream) in the harness"]
     run.assumptions = ["[decoder]: the solver enumerates the trees; the random streams are enumerated natively per tree",
-                       "Mutator.mutate / swap_subtrees are not exercised: in this environment they raise TypeError from the installed "
-                       "`returns` version on the unchanged tree (listed among the always-failing tests of the baseline)"]
-    run.outside = ["aperiodic random streams longer than the period, larger trees, other grammars, Mutator.mutate/swap_subtrees"]
+                       "Mutator.mutate / swap_subtrees are exercised since the repair 2a1cb56 (before it they raised TypeError from the installed `returns` version)"]
+    run.outside = ["aperiodic random streams longer than the period, larger trees, other grammars"]
     res = xh.check_many("C12", HARNESS, cfgs, twin_timeout=120)
     xh.record(run, res, "", keyfn)
     return run.finish(
-        "Real GrammarFuzzer.expand_tree, GrammarCoverageFuzzer.expand_tree, Mutator.replace_subtree_randomly and Mutator.generalize_subtree on every "
+        "Real GrammarFuzzer.expand_tree, GrammarCoverageFuzzer.expand_tree, Mutator.replace_subtree_randomly, generalize_subtree, swap_subtrees and mutate on every "
         "bounded input tree and every periodic random stream: the result must be a closed derivation tree of the grammar with the same root; "
         "every node that was already expanded keeps its id, label and children labels; open leaves are completed in place.")
 
